@@ -17,12 +17,15 @@ ID = "C03"
 TITLE = "descriptor before record, per stream"
 LEVEL = "exploration"
 RULE = (
-    "a fixed set of 21 record makers: an identifier-coincident pair (same name, same 32-bit hash, different fields), a "
+    "a fixed set of 23 record makers: an identifier-coincident pair (same name, same 32-bit hash, different fields), a "
     "same-name/different-fields pair (different hash), a holder whose inner type occurs only nested in a 'record' field, a "
     "holder with a record[] field whose elements are of the coincident types, a grouped record whose member types occur only "
-    "there, a grouped record with members of the same-name pair, a keyword-field type, a grouped record with the same group name and flat field list as another one but other member types, a type whose records can fail while being packed (good and failing variant: the failing write raises and the application carries on), a grouped record with a member of a coincident type, two grouped records of one group name whose members differ only in a field type, name twins ('/' versus '_'), a descriptor cloned under a new name by the deprecated constructor form, a field-less marker type (plain and nested).  Histories: EXHAUSTIVE over all write "
+    "there, a grouped record with members of the same-name pair, a keyword-field type, a grouped record with the same group name and flat field list as another one but other member types, a type whose records can fail while being packed (good and failing variant: the failing write raises and the application carries on), a grouped record with a member of a coincident type, two grouped records of one group name whose members differ only in a field type, name twins ('/' versus '_'), a descriptor cloned under a new name by the deprecated constructor form, a field-less marker type (plain and nested), grouped records nested in a record / record[] field whose member types occur nowhere else, a type whose descriptor is a NEW equal object for every record, a brand-new type for every record.  Histories: EXHAUSTIVE over all write "
     "sequences up to length 3 (quick) / 4 (thorough) over the makers, sampled one step longer, on a binary stream writer and on a JSON-lines writer, "
-    "then random histories of length 20-200 and 2-3 writers open at the same time with interleaved writes.  Oracle per "
+    "then random histories of length 20-200, 2-3 writers open at the same time with interleaved writes - each on its own output, and (binary) all "
+    "appending to ONE shared output (histories with identifier-coincident types from different writers are skipped there: ambiguous by construction) - "
+    "and descriptor-turnover runs (60-300 equal descriptor objects defined and written through one long-lived writer, released, then as many brand-new "
+    "types, the ones whose descriptor object sits at a previously used address first).  Oracle per "
     "stream: (binary) the independent reference codec decodes the bytes - every record / nested / grouped identifier must "
     "resolve to the most recent preceding descriptor frame - to exactly the observations written; (JSON) every record line's "
     "identifier resolves to the most recent preceding descriptor line whose name + fields are the record's; the library's "
@@ -40,9 +43,10 @@ BUDGET_S = {"quick": 200, "thorough": 1200}
 ANCHORS = ["flow.record.packer:RecordPacker.register", "flow.record.packer:RecordPacker.pack_obj", "flow.record.stream:RecordStreamWriter.on_new_descriptor",
            "flow.record.jsonpacker:JsonRecordPacker.register", "flow.record.adapter.jsonfile:JsonfileWriter.packer_on_new_descriptor"]
 
-NMAKERS = 21
+NMAKERS = 23
 BAD_MAKERS = {11}  # writing this record is expected to RAISE (unpackable value); the application carries on
 NONTRIVIAL_ALONE = {4, 5, 6, 7, 9, 12, 19, 20}
+_COUNTER = itertools.count()
 
 
 def makers():
@@ -111,6 +115,11 @@ def makers():
         # descriptors must be announced on behalf of the holder's frame
         lambda i: mk(H, sub=GroupedRecord("grp/nested", [mk(N1, p="n%d" % i), mk(N2, q=i)]), tag="g%d" % i),
         lambda i: mk(L, subs=[GroupedRecord("grp/inlist", [mk(N3, r="l%d" % i)]), mk(In, v=i)], n=(i + 2) % 65536),
+        # 21: a NEW descriptor object, equal to the earlier ones, for every record (an application that defines its types
+        # inside the producing function); 22: a brand-new type for every record.  Descriptor objects come and go, so
+        # bookkeeping keyed on object identity meets freed and re-used addresses.
+        lambda i: mk(RecordDescriptor("fresh/eq", [("string", "a"), ("varint", "n")]), a="f%d" % i, n=i),
+        lambda i: mk(RecordDescriptor("brand/n%d" % next(_COUNTER), [("varint", "n")]), n=i),
     ]
 
 
@@ -146,6 +155,20 @@ def generate(ctx):
         nw = rng.choice([2, 3])
         n = rng.randint(2, 14)
         yield {"k": "multi", "fmt": rng.choice(["bin", "json"]), "nw": nw, "ops": [[rng.randrange(nw), rng.randrange(NMAKERS)] for _ in range(n)]}
+    # descriptor turnover: many equal descriptor objects alive at once, released, then many brand-new types (their
+    # descriptor objects take over freed addresses) - all through one long-lived writer
+    for i in range(ctx.scale(2, 12)):
+        yield {"k": "turnover", "fmt": ("bin", "json")[i % 2], "n": rng.choice([60, 150, 300]), "s": subseed("c03", ctx.seed, "turnover", ctx.shard, i)}
+    # several writers appending to one shared output, interleaved (sampled, and w1:a w2:b w1:a for every pair of makers)
+    for i in range(ctx.scale(60, 900)):
+        nw = rng.choice([2, 3])
+        n = rng.randint(3, 10)
+        yield {"k": "multi", "fmt": "bin", "shared": 1, "nw": nw, "ops": [[rng.randrange(nw), rng.randrange(NMAKERS)] for _ in range(n)]}
+    for a in range(NMAKERS):
+        for b in range(NMAKERS):
+            if ctx.mine(idx):
+                yield {"k": "multi", "fmt": "bin", "shared": 1, "nw": 2, "ops": [[0, a], [1, b], [0, a], [1, a]]}
+            idx += 1
     # short multi-writer histories, enumerated: 2 writers x every pair of makers in both orders
     for a in range(NMAKERS):
         for b in range(NMAKERS):
@@ -165,7 +188,7 @@ def flat_obs(g):
 
 
 MAKER_NAMES = {0: "t/x", 1: "t/x", 2: "same/name", 3: "same/name", 4: "holder/rec", 5: "holder/list", 6: "grp/only", 7: "grp/same", 8: "kw/type",
-               9: "grp/only", 10: "bad/able", 12: "grp/co", 13: "grp/t", 14: "grp/t", 15: "tw/in/x", 16: "tw/in_x", 17: "clone/of", 19: "holder/rec", 20: "holder/list"}
+               9: "grp/only", 10: "bad/able", 12: "grp/co", 13: "grp/t", 14: "grp/t", 15: "tw/in/x", 16: "tw/in_x", 17: "clone/of", 19: "holder/rec", 20: "holder/list", 21: "fresh/eq"}
 
 
 def created_with_ok(m, rec):
@@ -206,10 +229,10 @@ def json_view(rec):
 
 # ---- writers --------------------------------------------------------------------------------------
 class BinStream:
-    def __init__(self, ctx):
+    def __init__(self, ctx, buf=None):
         from flow.record import RecordStreamWriter
 
-        self.buf = io.BytesIO()
+        self.buf = buf if buf is not None else io.BytesIO()
         self.w = RecordStreamWriter(self.buf)
 
     def write(self, rec):
@@ -382,8 +405,15 @@ def json_top_level_only(lines_expected):
 def run_streams(ctx, case, fmt, nw, ops):
     mk = ctx.state["makers"]
     cls = BinStream if fmt == "bin" else JsonStream
-    streams = [cls(ctx) for _ in range(nw)]
-    written = [[] for _ in range(nw)]
+    shared = bool(case.get("shared")) and fmt == "bin"
+    if shared:
+        # several writers appending to ONE output (each starts with its own header frame when first used)
+        first = BinStream(ctx)
+        streams = [first] + [BinStream(ctx, first.buf) for _ in range(nw - 1)]
+    else:
+        streams = [cls(ctx) for _ in range(nw)]
+    written = [[] for _ in range(nw)]  # expected observations, taken when the record is handed to the writer
+    order = []
     try:
         for step, (w, m) in enumerate(ops):
             rec = mk[m](step)
@@ -399,15 +429,24 @@ def run_streams(ctx, case, fmt, nw, ops):
             if not created_with_ok(m, rec):
                 ctx.violation(None, "a record does not carry the descriptor (type name) it was created with", detail={"maker": m, "defined_as": MAKER_NAMES.get(m), "record_reports": str(getattr(getattr(rec, "_desc", None), "name", None))})
                 return
-            written[w].append(rec)
+            exp = expected_obs(rec, fmt)
+            written[w].append(exp)
+            order.append(exp)
             try:
                 streams[w].write(rec)
             except Exception as e:  # noqa: BLE001
                 ctx.violation(None, "writing a valid record raised %s" % type(e).__name__, detail={"exception": repr(e)[:300], "maker": m, "history": ops})
                 return
+        del rec
+        if shared:
+            for st in streams:
+                data = st.finish()
+            check_bin(ctx, case, data, order, None, "bin output shared by %d writers" % nw)
+            ctx.event("streams:bin-shared")
+            return
         for w in range(nw):
             data = streams[w].finish()
-            expected = [expected_obs(r, fmt) for r in written[w]]
+            expected = written[w]
             label = "%s stream of writer %d/%d" % (fmt, w + 1, nw)
             if fmt == "bin":
                 check_bin(ctx, case, data, expected, streams[w].registry(), label)
@@ -443,8 +482,59 @@ class _Probe:
 COINCIDENT_IN_ONE_FRAME = 5  # maker 5 nests records of BOTH coincident types in a single record frame
 
 
+def run_turnover(ctx, case):
+    import gc
+
+    from flow.record import RecordDescriptor
+
+    fmt, n = case["fmt"], case["n"]
+    st = (BinStream if fmt == "bin" else JsonStream)(ctx)
+    expected = []
+    tag = "%x" % (case["s"] & 0xFFFFFF)
+    try:
+        fields = [("string", "x"), ("varint", "k")]
+        inputs = []
+        for i in range(n):
+            d = RecordDescriptor("turn/common", fields)  # every input defines the common type itself, then writes
+            inputs.append(d)
+            rec = d.recordType(x="c%d" % i, k=i)
+            expected.append(expected_obs(rec, fmt))
+            st.write(rec)
+        old_ids = {id(d) for d in inputs}
+        del inputs, d, rec
+        gc.collect()
+        # new types are defined (nothing written yet); the ones whose descriptor object sits at an address a released
+        # descriptor had are written FIRST: bookkeeping keyed on object identity would take them for known
+        cands = [RecordDescriptor("turn/n%s_%d" % (tag, i), [("varint", "n"), ("string", "y")]) for i in range(n)]
+        cands.sort(key=lambda d_: id(d_) not in old_ids)
+        reused = sum(1 for d_ in cands if id(d_) in old_ids)
+        for i, d in enumerate(cands):
+            rec = d.recordType(n=i, y="new")
+            expected.append(expected_obs(rec, fmt))
+            st.write(rec)
+        del d, rec, cands
+        ctx.event("turnover_descriptor_objects_at_a_previously_used_address", reused)
+        ctx.event("turnover_records", len(expected))
+        data = st.finish()
+        if fmt == "bin":
+            check_bin(ctx, case, data, expected, st.registry(), "bin stream with descriptor turnover")
+        else:
+            check_json(ctx, case, data, expected, None, st.registry(), "json stream with descriptor turnover", st.path)
+        ctx.event("streams:" + fmt + "-turnover")
+    except Exception as e:  # noqa: BLE001
+        ctx.violation(None, "descriptor turnover: writing valid records raised %s" % type(e).__name__, detail={"exception": repr(e)[:300]})
+    finally:
+        if hasattr(st, "cleanup"):
+            st.cleanup()
+    ctx.nontrivial("turnover", fmt, case["s"])
+    ctx.sample(case, kind="turnover:" + fmt)
+
+
 def execute(ctx, case):
     ctx.ev()
+    if case["k"] == "turnover":
+        run_turnover(ctx, case)
+        return
     if case["k"] == "hist":
         ops = [[0, m] for m in case["h"]]
         nw = 1
@@ -455,6 +545,11 @@ def execute(ctx, case):
         nw = case["nw"]
         used = {m for _, m in ops}
         ctx.event("multi_writer_cases")
+        if case.get("shared") and (used & {0, 5}) and (used & {1, 5, 12}):
+            # independent writers cannot know that another writer announced a DIFFERENT type under the same identifier:
+            # with the two identifier-coincident types in play a shared output is ambiguous by construction
+            ctx.event("shared_output_cases_skipped_(identifier-coincident_types_from_independent_writers)")
+            return
     if COINCIDENT_IN_ONE_FRAME in used:
         # One frame cannot be preceded by two different definitions for the same identifier: a format limit (known
         # finding).  Differential control: the same history without those records must be clean, otherwise whatever it
